@@ -2458,9 +2458,23 @@ static bool parse_next(TokenContext &ctx, Chunk &pc, const Chunk *prev_pc)
       {
          if (Chunk::GetTail()->Is(CT_MACRO))
          {
-            // We have "#define XXX <", assume '<' starts an include string
-            parse_string(ctx, pc, 0, false);
-            return(true);
+            // We have "#define XXX <", assume '<' starts an include string -
+            // when it is closed on this line ('#define LT <' is an operator)
+            size_t off = 1;
+
+            while (  ctx.peek(off) != 0
+                  && ctx.peek(off) != '\n'
+                  && ctx.peek(off) != '\r'
+                  && ctx.peek(off) != '>')
+            {
+               off++;
+            }
+
+            if (ctx.peek(off) == '>')
+            {
+               parse_string(ctx, pc, 0, false);
+               return(true);
+            }
          }
       }
       /* Inside clang's __has_include() could be "path/to/file.h" or system-style <path/to/file.h> */
